@@ -669,7 +669,7 @@ class CopyP(Profile):
                 "add_attr": 3, "rm_attr": 2, "attr_item": 3, "extras_item": 3, "add_extras": 2,
                 "add_ns": 4, "rm_ns": 2, "remove_child": 3, "shift": 2, "replace_child": 2,
                 "set_name": 1, "delete": 1, "remove_children": 0.5, "set_nsmap": 0.5, "eml_seed": 1,
-                "import_xml": 0.7, "nsmap_item": 2}
+                "import_xml": 0.7, "nsmap_item": 2, "query": 5}
 
     def start(self, state):
         state["pairs"] = []      # (orig_set, copy_set)
@@ -681,6 +681,22 @@ class CopyP(Profile):
             v = self._copy_step(c)
             if v:
                 return v
+        if (k == "query" and c.out.ok and st["pairs"] and c.op["q"] in
+                ("find_child", "find_all_children", "find_descendant", "find_all_descendants", "path_single", "path_all")):
+            # F2 as the search queries see it: a question asked of one tree is never answered
+            # with a node of its counterpart (shared caches and the like)
+            got = to_handles(c.W, c.out.value)
+            got = got if isinstance(got, list) else [got]
+            hs = set(x for x in got if isinstance(x, int))
+            n = c.R["n"]
+            for (oset, cset, born, dirty) in st["pairs"]:
+                for mine, other, who in ((oset, cset, "copy"), (cset, oset, "original")):
+                    if n in mine and n not in other:
+                        bad = sorted(hs & other - mine)
+                        if bad:
+                            return Violation("C12", "F2", "query:%s:answers-with-node-of-the-%s" % (c.op["q"], who),
+                                             "query %s on h%d returned h%s, which belongs to the %s" % (c.op["q"], n, bad, who),
+                                             {"returned": short(got)})
         # F2: independence
         return independence(c, "C12", st["pairs"], "F2", ("original", "copy"))
 
